@@ -792,7 +792,7 @@ def run(ctx):
         steps_total += meta["K"]
         try:
             probs = check_history(case, meta, h, d, stats, hist)
-        except (IndexError, ValueError, AssertionError, KeyError) as ex:
+        except (IndexError, ValueError, AssertionError, KeyError, OverflowError, ZeroDivisionError, TypeError) as ex:
             probs = [("prop", "malformed-output", "harness output not parseable (%r): %s" % (ex, h[:160]))]
         for kind, key2, what in probs:
             (corr_bad if kind == "corr" else prop_bad).append((key2, what, hl, h))
